@@ -4,7 +4,7 @@
    have the same names in the same order and, unless (name, v) is in a recorded defect class of fs,
    g v = Ok (spec (view v)) where view v are the bytes within the length.
    Only statements, each closed by [exact]; proofs in Proofs/Views*.v. *)
-From PV Require Import Model.ViewsShow Spec.Views Proofs.ViewsBase Proofs.Views.
+From PV Require Import Model.ViewsShow Spec.Views Proofs.ViewsBase Proofs.Views Proofs.Views2 Proofs.Views3 Proofs.ViewsLen.
 Open Scope N_scope.
 
 Theorem C02_ARP_getters_spec : forall v, wf v -> bytes_ok (arr v) ->
@@ -12,15 +12,85 @@ Theorem C02_ARP_getters_spec : forall v, wf v -> bytes_ok (arr v) ->
 Proof. exact ARP_spec. Qed.
 Print Assumptions C02_ARP_getters_spec.
 
+Theorem C02_DHCP4_getters_spec : forall v, wf v -> bytes_ok (arr v) ->
+  DHCP4_IsValid v = Ok true -> getters_spec [] DHCP4_getters DHCP4_specs v.
+Proof. exact DHCP4_spec. Qed.
+Print Assumptions C02_DHCP4_getters_spec.
+
+Theorem C02_DNS_getters_spec : forall v, wf v -> bytes_ok (arr v) ->
+  DNS_IsValid v = Ok true -> getters_spec [] DNS_getters DNS_specs v.
+Proof. exact DNS_spec. Qed.
+Print Assumptions C02_DNS_getters_spec.
+
 Theorem C02_Ether_getters_spec_partial : forall v, wf v -> bytes_ok (arr v) ->
   Ether_IsValid v = Ok true -> getters_spec Ether_findings Ether_getters Ether_specs v.
 Proof. exact Ether_spec. Qed.
 Print Assumptions C02_Ether_getters_spec_partial.
 
+Theorem C02_Pause_getters_spec : forall v, wf v -> bytes_ok (arr v) ->
+  Pause_IsValid v = Ok true -> getters_spec [] Pause_getters Pause_specs v.
+Proof. exact Pause_spec. Qed.
+Print Assumptions C02_Pause_getters_spec.
+
+Theorem C02_HBH_getters_spec : forall v, wf v -> bytes_ok (arr v) ->
+  HBH_IsValid v = Ok true -> getters_spec [] HBH_getters HBH_specs v.
+Proof. exact HBH_spec. Qed.
+Print Assumptions C02_HBH_getters_spec.
+
+Theorem C02_ICMP_getters_spec : forall v, wf v -> bytes_ok (arr v) ->
+  ICMP_IsValid v = Ok true -> getters_spec [] ICMP_getters ICMP_specs v.
+Proof. exact ICMP_spec. Qed.
+Print Assumptions C02_ICMP_getters_spec.
+
+Theorem C02_NA_getters_spec : forall v, wf v -> bytes_ok (arr v) ->
+  NA_IsValid v = Ok true -> getters_spec [] NA_getters NA_specs v.
+Proof. exact NA_spec. Qed.
+Print Assumptions C02_NA_getters_spec.
+
+Theorem C02_NS_getters_spec : forall v, wf v -> bytes_ok (arr v) ->
+  NS_IsValid v = Ok true -> getters_spec [] NS_getters NS_specs v.
+Proof. exact NS_spec. Qed.
+Print Assumptions C02_NS_getters_spec.
+
+Theorem C02_Redirect6_getters_spec : forall v, wf v -> bytes_ok (arr v) ->
+  Redirect6_IsValid v = Ok true -> getters_spec [] Redirect6_getters Redirect6_specs v.
+Proof. exact Redirect6_spec. Qed.
+Print Assumptions C02_Redirect6_getters_spec.
+
+Theorem C02_RA_getters_spec : forall v, wf v -> bytes_ok (arr v) ->
+  RA_IsValid v = Ok true -> getters_spec [] RA_getters RA_specs v.
+Proof. exact RA_spec. Qed.
+Print Assumptions C02_RA_getters_spec.
+
+Theorem C02_ICMPEcho_getters_spec : forall v, wf v -> bytes_ok (arr v) ->
+  ICMPEcho_IsValid v = Ok true -> getters_spec [] ICMPEcho_getters ICMPEcho_specs v.
+Proof. exact ICMPEcho_spec. Qed.
+Print Assumptions C02_ICMPEcho_getters_spec.
+
+Theorem C02_IEEE1905_getters_spec : forall v, wf v -> bytes_ok (arr v) ->
+  IEEE1905_IsValid v = Ok true -> getters_spec [] IEEE1905_getters IEEE1905_specs v.
+Proof. exact IEEE1905_spec. Qed.
+Print Assumptions C02_IEEE1905_getters_spec.
+
 Theorem C02_IP4_getters_spec_partial : forall v, wf v -> bytes_ok (arr v) ->
   IP4_IsValid v = Ok true -> getters_spec IP4_findings_C02 IP4_getters IP4_specs v.
 Proof. exact IP4_spec. Qed.
 Print Assumptions C02_IP4_getters_spec_partial.
+
+Theorem C02_IP6_getters_spec : forall v, wf v -> bytes_ok (arr v) ->
+  IP6_IsValid v = Ok true -> getters_spec [] IP6_getters IP6_specs v.
+Proof. exact IP6_spec. Qed.
+Print Assumptions C02_IP6_getters_spec.
+
+Theorem C02_RRCP_getters_spec : forall v, wf v -> bytes_ok (arr v) ->
+  RRCP_IsValid v = Ok true -> getters_spec [] RRCP_getters RRCP_specs v.
+Proof. exact RRCP_spec. Qed.
+Print Assumptions C02_RRCP_getters_spec.
+
+Theorem C02_SNAP_getters_spec : forall v, wf v -> bytes_ok (arr v) ->
+  SNAP_IsValid v = Ok true -> getters_spec [] SNAP_getters SNAP_specs v.
+Proof. exact SNAP_spec. Qed.
+Print Assumptions C02_SNAP_getters_spec.
 
 Theorem C02_TCP_getters_spec_partial : forall v, wf v -> bytes_ok (arr v) ->
   TCP_IsValid v = Ok true -> getters_spec TCP_findings_C02 TCP_getters TCP_specs v.
@@ -31,6 +101,11 @@ Theorem C02_UDP_getters_spec : forall v, wf v -> bytes_ok (arr v) ->
   UDP_IsValid v = Ok true -> getters_spec [] UDP_getters UDP_specs v.
 Proof. exact UDP_spec. Qed.
 Print Assumptions C02_UDP_getters_spec.
+
+Theorem C02_U880a_getters_spec : forall v, wf v -> bytes_ok (arr v) ->
+  U880a_IsValid v = Ok true -> getters_spec [] U880a_getters U880a_specs v.
+Proof. exact U880a_spec. Qed.
+Print Assumptions C02_U880a_getters_spec.
 
 (* ---- refutations of the full statement on the real code's model (DESIGN section 11 #3 #4 #5 #8) ---- *)
 Theorem C02_IP4_fragment_refuted :
